@@ -149,3 +149,43 @@ pub fn dispose_incoming_native(refuse: bool) -> u32 {
         _ => panic!("retransmitted Initial was not treated as a new attempt (stale route)"),
     }
 }
+
+/// Native replay body for the E2 query `e2_endpoint_retry_token` (C14): the token inside the Retry that
+/// answers an Initial validates exactly the address (IP and port) the Initial came from, names the
+/// Initial's destination CID as the original one, and the Retry is sent back to that address.
+pub fn retry_token_native(_x: u8) -> u32 {
+    use crate::connection::verif::nullcrypto;
+    use crate::token::verif::{FixedTime, TagTokenKey};
+    let mut cfg = EndpointConfig::new(Arc::new(NullHmac));
+    cfg.rng_seed(Some([7; 32]));
+    let issued = std::time::UNIX_EPOCH + Duration::from_secs(1_000_000);
+    let mut server = ServerConfig::new(Arc::new(nullcrypto::NullServerCrypto), Arc::new(TagTokenKey));
+    server.time_source = Arc::new(FixedTime(issued));
+    let server = Arc::new(server);
+    let mut ep = Endpoint::new(Arc::new(cfg), Some(server.clone()), true);
+    let now = crate::verif::mk_instant(100, 0).unwrap();
+    let remote: SocketAddr = "10.0.0.1:4433".parse().unwrap();
+    let mut v = vec![0xc0u8, 0, 0, 0, 1, 8, 9, 9, 9, 9, 9, 9, 9, 9, 4, 6, 6, 6, 6, 0];
+    let rest = 1200 - v.len() - 2;
+    v.extend_from_slice(&[0x40 | (rest >> 8) as u8, rest as u8]);
+    v.resize(1200, 0);
+    let mut buf = Vec::new();
+    let Some(DatagramEvent::NewConnection(incoming)) = ep.handle(now, remote, None, None, BytesMut::from(&v[..]), &mut buf) else { panic!("first Initial must start a connection attempt") };
+    assert!(incoming.may_retry());
+    let t = ep.retry(incoming, &mut buf).ok().expect("a first Initial may be answered with a Retry");
+    assert!(t.destination == remote, "Retry sent to {} instead of the Initial's source", t.destination);
+    // parse the Retry: long header 0xf?, version, DCID = client's SCID, SCID = new CID, token, 16-byte tag
+    let pkt = &buf[..t.size];
+    assert!(pkt[0] & 0xf0 == 0xf0 && pkt[5] == 4 && pkt[6..10] == [6, 6, 6, 6]);
+    let scid_len = pkt[10] as usize;
+    let new_dst = ConnectionId::new(&pkt[11..11 + scid_len]);
+    let token = &pkt[11 + scid_len..pkt.len() - 16];
+    // present the token: from the same address it validates, names the original DCID ...
+    let hdr = |tok: &[u8]| InitialHeader { dst_cid: new_dst, src_cid: ConnectionId::new(&[6; 4]), token: Bytes::copy_from_slice(tok), number: crate::packet::PacketNumber::U8(0), version: 1 };
+    let ok = crate::token::IncomingToken::from_header(&hdr(token), &server, remote).ok().expect("genuine retry token rejected");
+    assert!(ok.validated && ok.orig_dst_cid == ConnectionId::new(&[9; 8]) && ok.retry_src_cid == Some(new_dst), "retry token does not name the first Initial's destination CID");
+    // ... from another port or another IP it is an error (INVALID_TOKEN)
+    assert!(crate::token::IncomingToken::from_header(&hdr(token), &server, "10.0.0.1:4434".parse().unwrap()).is_err(), "retry token accepted from another port");
+    assert!(crate::token::IncomingToken::from_header(&hdr(token), &server, "10.0.0.2:4433".parse().unwrap()).is_err(), "retry token accepted from another address");
+    1
+}
